@@ -31,6 +31,7 @@ type Opts struct {
 	FixedLayout        string // "" = random
 	LongNames          bool   // identifier lengths 1..40
 	UniqueMethodNames  bool   // method names unique in the whole project (default true unless Overloads)
+	CRLF               bool   // some files are written with \r\n line ends
 	CStyleArrays       bool   // parameters may be written `int samples[]`
 	HotBias            int    // chance in 10 that a variable gets the "hot" type / a call on it targets the hot method (C05: many sites of one method)
 	FieldsFirst        bool   // fields are declared before the constructors and methods (receivers "declared at an earlier point")
@@ -223,7 +224,9 @@ func Generate(r *run.Rand, o Opts) *Project {
 	}
 	for _, f := range p.Files {
 		if f.Type != nil {
-			RenderFile(r.Fork(), f, RandomLayout(r, o.MultiByte))
+			lay := RandomLayout(r, o.MultiByte)
+			lay.CRLF = o.CRLF && r.Chance(1, 4)
+			RenderFile(r.Fork(), f, lay)
 		}
 	}
 	FinalizeSites(p)
